@@ -106,12 +106,10 @@ theorem execBinary_dims (f : Int → Int → Option Int) (ca cb' cr : CT) (va vb
 
 /-- **C10.T1-binaryInfer** — the function the real operators run (`binary_op_infer_shapes`): the
 value path when `symbolic_binary_op` decides every element, otherwise the `BinaryOp` shape rule.
-For operands whose inspected elements satisfy `S` (nothing for Add/Sub/Mul/Div, `good` for Equal) and
-whose executed dimensions are non-empty, the inferred tensor agrees with the executed one, where the
+For operands whose inspected elements satisfy `S` (nothing for Add/Sub/Mul/Div, `good` for Equal) , the inferred tensor agrees with the executed one, where the
 execution is the valued reference if both operands carry values and the broadcast shape otherwise. -/
 theorem c10_binaryInfer_sound (σ : Env) (S) (op) (f) (h : OpHomOn σ S op f) (a b r : STn) (ca cb' cr : CT)
     (ha : Agrees σ a ca) (hb : Agrees σ b cb') (hSa : ElemsOn S a) (hSb : ElemsOn S b)
-    (hpa : ∀ x ∈ ca.dims, 1 ≤ x) (hpb : ∀ y ∈ cb'.dims, 1 ≤ y)
     (hi : binaryInfer op a b = .ok r) (he : execBinaryFull f ca cb' = some cr) : Agrees σ r cr := by
   unfold binaryInfer at hi
   cases hs : symBinary op a b with
@@ -155,7 +153,7 @@ theorem c10_binaryInfer_sound (σ : Env) (S) (op) (f) (h : OpHomOn σ S op f) (a
             | some vb =>
               simp only [hva, hvb] at he
               exact execBinary_dims f ca cb' cr va vb hva hvb he
-        exact c10_binaryShape_sound σ a b ca cb' ad bd out cr.dims ha hb had hbd hpa hpb hi hz
+        exact c10_binaryShape_sound σ a b ca cb' ad bd out cr.dims ha hb had hbd hi hz
 
 /-- **C10.T1-neg**. -/
 theorem c10_neg_sound (σ : Env) (a : STn) (c : CT) (ha : Agrees σ a c) : Agrees σ (negInfer a) (cneg c) := by
